@@ -29,6 +29,14 @@ fn make_ctx(cfg: &Sx) -> Option<Context> {
         c.define_custom_unit_v1("mega", "mega", "1000000", &CustomUnitAttribute::IsLongPrefix);
         c.define_custom_unit_v1("myalias", "myaliases", "m/s", &CustomUnitAttribute::Alias);
         c.define_custom_unit_v1("bad", "bads", "((", &CustomUnitAttribute::None);
+        // every attribute kind also with a plural that differs from the singular
+        c.define_custom_unit_v1("dozen", "dozens", "12", &CustomUnitAttribute::IsLongPrefix);
+        c.define_custom_unit_v1("blip", "blips", "7 s", &CustomUnitAttribute::AllowShortPrefix);
+        c.define_custom_unit_v1("nuv", "nuvs", "blip^2 / zorg", &CustomUnitAttribute::AllowLongPrefix);
+        c.define_custom_unit_v1("al", "als", "kilozorg", &CustomUnitAttribute::Alias);
+        c.define_custom_unit_v1("é", "és", "2", &CustomUnitAttribute::AllowLongPrefix);
+        c.define_custom_unit_v1("selfref", "selfrefs", "2 selfref", &CustomUnitAttribute::None);
+        c.define_custom_unit_v1("", "", "1", &CustomUnitAttribute::None);
     }
     Some(c)
 }
